@@ -117,8 +117,12 @@ func kbDigestFor(seed int64, ob int, name string) []byte {
 		return append([]byte{0x01}, hashBytes(seed, "kb-digest-ord0", ob-1)...)
 	case "dord+1":
 		return append([]byte{0x80}, hashBytes(seed, "kb-digest-ord1", ob)...)
-	case "dff": // all ones, twice the length of the order
-		return bytes.Repeat([]byte{0xff}, 2*ob)
+	case "dff": // (nearly) all ones, twice the length of the order; its leading order-length part differs from "dffo"
+		// in one bit: digests that agree in that part are the same integer to ECDSA, i.e. the same message (a signature
+		// over one verifies over the other - seeds 21 and 22 paired the two in one history, a false alarm of this driver)
+		d := bytes.Repeat([]byte{0xff}, 2*ob)
+		d[ob-2] = 0xfe // (not the last byte of that part: on P-521 its low bits are shifted out)
+		return d
 	case "dffo": // all ones, exactly the length of the order
 		return bytes.Repeat([]byte{0xff}, ob)
 	}
@@ -294,7 +298,12 @@ func execKeyBlind(c *ctx, in ev) []ev {
 		if k, ok := bks[name]; ok {
 			return k
 		}
-		k, _ := rawKey(curve, kbBlindBytes(c.seed, curve, name))
+		// made the way callers make them - with the library's constructor, from raw bytes (the REFERENCE derives the
+		// factor from those bytes itself; if the constructor alters the integer, e.g. reduces it, the two part ways)
+		k, err := ecdsa.CreateKey(curve, kbBlindBytes(c.seed, curve, name))
+		if err != nil || k == nil {
+			k, _ = rawKey(curve, kbBlindBytes(c.seed, curve, name))
+		}
 		bks[name] = k
 		return k
 	}
